@@ -85,6 +85,23 @@ class Var:
         self.val = val
 
 
+def ansi_decode(t):
+    """$'...' escapes used by the emitted scripts"""
+    out = []
+    i = 0
+    table = {'t': '\t', 'n': '\n', 'r': '\r', '\\': '\\', "'": "'", '"': '"', 'a': '\a', 'b': '\b', 'e': '\x1b', 'f': '\f', 'v': '\v'}
+    while i < len(t):
+        if t[i] == '\\' and i + 1 < len(t):
+            if t[i + 1] in table:
+                out.append(table[t[i + 1]])
+                i += 2
+                continue
+            raise Unsupported("$'...' escape \\%s" % t[i + 1])
+        out.append(t[i])
+        i += 1
+    return ''.join(out)
+
+
 class Interp:
     def __init__(self, engine=None, probes=None, wordbreaks=" \t\n\"'><=;|&(:", glob_free_alphabet=True):
         self.engine = engine
@@ -1035,7 +1052,7 @@ class Interp:
         for p in w[1]:
             k = p[0]
             if k in ('lit', 'sq', 'ansi'):
-                add(p[1] if k != 'ansi' else p[1].replace('\\t', '\t').replace('\\n', '\n'))
+                add(p[1] if k != 'ansi' else ansi_decode(p[1]))
             elif k == 'dq':
                 if not p[1]:
                     add('')
@@ -1102,7 +1119,7 @@ class Interp:
         if k in ('lit', 'sq'):
             return p[1]
         if k == 'ansi':
-            return p[1].replace('\\t', '\t').replace('\\n', '\n')
+            return ansi_decode(p[1])
         if k == 'dq':
             vals = []
             for q in p[1]:
@@ -1220,12 +1237,12 @@ class Interp:
             return base.lower()
         if op == '##':
             return self.remove_longest_prefix(base, d['pattern'])
-        if op == '%':
+        if op in ('%', '#'):
+            toks = self.mixed_pattern(d['pattern'])
+            if toks is not None:
+                return self.remove_glob(base, toks, prefix=(op == '#'))
             pat, quoted = self.pattern_value(d['pattern'])
-            return self.remove_suffix(base, pat, quoted)
-        if op == '#':
-            pat, quoted = self.pattern_value(d['pattern'])
-            return self.remove_prefix(base, pat, quoted)
+            return self.remove_suffix(base, pat, quoted) if op == '%' else self.remove_prefix(base, pat, quoted)
         raise Unsupported('parameter operator %s' % op)
 
     # -- string operations that may need symbolic reasoning ---------------------------------------
@@ -1482,17 +1499,41 @@ class Interp:
             return self.arith(key) == 0
         return self.lookup(ref) is not None
 
-    def match_pattern(self, subject, pattern_word):
-        """[[ subject == pattern ]]: quoted pieces are literal, unquoted pieces are glob text."""
-        if isinstance(subject, (Quoted, SymLen)):
-            raise Unsupported('marker as pattern subject')
-        pieces = []    # ('lit', value) | ('glob', str)
+    def pieces_tokens(self, pieces):
+        toks = []
+        for kind, v in pieces:
+            if kind == 'toks':
+                new = v
+            elif kind == 'glob':
+                new = sym.parse_glob(v)
+            elif isinstance(v, str):
+                new = [('c', c) for c in v]
+            else:
+                new = [('c', c) for c in sym.expand(v, self.concretize(v))]
+            for t in new:
+                if t == ('star',) and toks and toks[-1] == ('star',):
+                    continue
+                toks.append(t)
+        return toks
+
+    def mixed_pattern(self, w):
+        """a pattern word made of quoted and unquoted parts where an unquoted part has glob characters -> tokens, else None"""
+        parts = w[1]
+        if len(parts) < 2:
+            return None
+        if not any(p[0] == 'lit' and any(c in p[1] for c in '*?[') for p in parts):
+            return None
+        return self.pieces_tokens(self.pattern_pieces(w))
+
+    def pattern_pieces(self, pattern_word):
+        """pieces of a pattern word: ('lit', value) quoted text, ('glob', str) unquoted concrete text, ('toks', tokens)"""
+        pieces = []
         for p in pattern_word[1]:
             k = p[0]
             if k == 'lit':
                 pieces.append(('glob', p[1]))
             elif k in ('sq', 'ansi'):
-                pieces.append(('lit', p[1]))
+                pieces.append(('lit', self.expand_part(p, True)))
             elif k == 'dq':
                 v = self.expand_part(p, True)
                 if isinstance(v, Quoted):
@@ -1514,21 +1555,15 @@ class Interp:
                         pieces.append(('lit', v))
                     else:
                         pieces.append(('toks', toks))
+        return pieces
+
+    def match_pattern(self, subject, pattern_word):
+        """[[ subject == pattern ]]: quoted pieces are literal, unquoted pieces are glob text."""
+        if isinstance(subject, (Quoted, SymLen)):
+            raise Unsupported('marker as pattern subject')
+        pieces = self.pattern_pieces(pattern_word)
         if any(kind == 'toks' for kind, _ in pieces):
-            toks = []
-            for kind, v in pieces:
-                if kind == 'toks':
-                    new = v
-                elif kind == 'glob':
-                    new = sym.parse_glob(v)
-                elif isinstance(v, str):
-                    new = [('c', c) for c in v]
-                else:
-                    new = [('c', c) for c in sym.expand(v, self.concretize(v))]
-                for t in new:
-                    if t == ('star',) and toks and toks[-1] == ('star',):
-                        continue
-                    toks.append(t)
+            toks = self.pieces_tokens(pieces)
             if isinstance(subject, str):
                 return self.decide(sym.glob_match_seq(toks, list(subject)))
             return self.decide(sym.glob_match(toks, subject))
